@@ -51,10 +51,10 @@ func init() {
 		})
 		f.raw("-- chain/genesis/shared_tests.go\n")
 		f.strList("checkGenesisOrder", order)
-		// the refusals of the two validators that carry the arithmetic, in source order: for every `return errors.Errorf(...)`
+		// the refusals of checkAccountBalance and of the four validators with loops, in source order: for every `return errors.Errorf(...)`
 		// the chain of loops and conditions it sits under (source text). The model's checkAccountBalance / checkTokenTotalSupply
 		// were written for exactly this list; a check that is added, dropped, moved or re-worded shows as drift at build time.
-		for _, fn := range []string{"checkAccountBalance", "CheckTokenTotalSupply"} {
+		for _, fn := range []string{"checkAccountBalance", "CheckTokenTotalSupply", "CheckPlasmaInfo", "CheckSwapAccount", "CheckPillarBalance"} {
 			d := src.funcDecl("", fn)
 			if d == nil {
 				return nil, fmt.Errorf("%s not found", fn)
